@@ -10,7 +10,7 @@ def fnv1a (bs : List UInt8) : UInt64 :=
 def fnvNats (xs : List Nat) : UInt64 :=
   fnv1a (xs.flatMap fun n => le32 n)
 
-def errName : Err → String
+def xorbErrName : Err → String
   | .format => "format" | .eof => "eof" | .io => "io" | .invalidArgs => "invalid-args"
   | .invalidRange => "invalid-range" | .panic => "panic"
 
@@ -25,22 +25,22 @@ def infoDigest (c : CasObject) : String :=
 def bytesRes (r : Except Err Bytes) : String :=
   match r with
   | .ok b => s!"ok:{b.length}:{fnv1a b}"
-  | .error e => s!"err:{errName e}"
+  | .error e => s!"err:{xorbErrName e}"
 
 def natRes (r : Except Err Nat) : String :=
   match r with
   | .ok n => s!"ok:{n}"
-  | .error e => s!"err:{errName e}"
+  | .error e => s!"err:{xorbErrName e}"
 
 def chunksRes (r : Except Err ChunksRead) : String :=
   match r with
   | .ok c => s!"ok:{c.data.length}:{fnv1a c.data}:{c.consumed}:{fnvNats c.indices}"
-  | .error e => s!"err:{errName e}"
+  | .error e => s!"err:{xorbErrName e}"
 
 def verdictStr : Verdict → String
   | .accept c gb => s!"accept gb={match gb with | some n => toString n | none => "-"} {infoDigest c}"
   | .reject => "reject"
-  | .error e => s!"error:{errName e}"
+  | .error e => s!"error:{xorbErrName e}"
 
 def splitLens (data : Bytes) : List Nat → List Bytes
   | [] => []
@@ -84,13 +84,13 @@ def handleXorb (blob : Blob) (cmd : String) (toks : List String) : String :=
       let obj := sliceL blob off len
       let C := mkCodec []
       match deserialize obj with
-      | .error e => s!"deser=err:{errName e}"
+      | .error e => s!"deser=err:{xorbErrName e}"
       | .ok cas =>
         let ranges := parseRanges ((kv toks "ranges").getD "")
         let rs := ranges.map fun (i, j) =>
           let off := match getByteOffset cas i j with
             | .ok (a, b) => s!"{a}:{b}"
-            | .error e => s!"err:{errName e}"
+            | .error e => s!"err:{xorbErrName e}"
           s!"[{i}-{j} off={off} bytes={bytesRes (getBytesByChunkRange C maxChunk cas obj i j)} ulen={natRes (uncompressedRangeLength cas i j)} clen={natRes (uncompressedChunkLength cas i)}]"
         s!"deser=ok {infoDigest cas} all={bytesRes (getAllBytes C maxChunk cas obj)} {" ".intercalate rs}"
     | _, _ => "bad-op"
@@ -115,7 +115,7 @@ def handleXorb (blob : Blob) (cmd : String) (toks : List String) : String :=
     | some off, some len =>
       match deserialize (sliceL blob off len) with
       | .ok cas => s!"ok {infoDigest cas}"
-      | .error e => s!"err:{errName e}"
+      | .error e => s!"err:{xorbErrName e}"
     | _, _ => "bad-op"
   | _ => "bad-op"
 
